@@ -12,11 +12,17 @@ import (
 // values lastIndex can hold in the explored histories and the values the
 // operations return).
 type Val struct {
-	K byte // 'u' undefined, 'n' null, 'd' number, 's' string, 'b' boolean
+	K byte // 'u' undefined, 'n' null, 'd' number, 's' string, 'b' boolean, 'o' object with a valueOf hook
 	N float64
 	S []uint16
 	B bool
+	// ValueOf models user code: an object whose valueOf is called by ToNumber
+	// (9.3 via ToPrimitive hint Number). Only used by re-entrancy scenarios.
+	ValueOf func() float64
 }
+
+// Obj is an object value whose valueOf runs f.
+func Obj(f func() float64) Val { return Val{K: 'o', ValueOf: f} }
 
 func Num(f float64) Val    { return Val{K: 'd', N: f} }
 func Str(u []uint16) Val   { return Val{K: 's', S: u} }
@@ -43,6 +49,8 @@ func (v Val) Render() string {
 		return "d:" + NumString(v.N)
 	case 's':
 		return RenderUnits(v.S)
+	case 'o':
+		return "o:[object Object]"
 	}
 	return "?"
 }
@@ -91,6 +99,8 @@ func ToNumber(v Val) float64 {
 		return 0
 	case 'd':
 		return v.N
+	case 'o':
+		return v.ValueOf()
 	case 's':
 		s := strings.TrimSpace(String16(v.S))
 		if s == "" {
@@ -298,6 +308,22 @@ func (re *RegExp) globalMatches(s []uint16, es6 bool) ([]*MatchResult, error) {
 		out = append(out, m)
 	}
 	return out, nil
+}
+
+// CollectMatches is the search phase of String.prototype.replace (15.5.4.11):
+// for a global expression the loop of String.prototype.match including its
+// lastIndex updates (which ends with lastIndex = 0), otherwise the first match
+// from the beginning of the string. It completes BEFORE any replacer function
+// is called.
+func (re *RegExp) CollectMatches(s []uint16, es6 bool) ([]*MatchResult, error) {
+	if re.Global {
+		return re.globalMatches(s, es6)
+	}
+	m, err := re.searchFrom(s, 0)
+	if err != nil || m == nil {
+		return nil, err
+	}
+	return []*MatchResult{m}, nil
 }
 
 // bothReadings runs f under the two readings of the global iteration from the
